@@ -49,6 +49,13 @@ CLAIMED = {
             "k_skeleton, from_max_simplices, largest component, integer relabelling and cleanup (exact result plus "
             "the five guarantees); TLC evaluates them on the logged argument and compares with the projected result "
             "of the real call for every TLC-enumerated small hypergraph x flag combinations / selections / orders."),
+    "C10": ("§4 C10", "Convert.tla states, per representation, the projection that must survive (incidences / edge "
+            "order / everything / class); TLC compares source and round-tripped network for every converter pair, the "
+            "other-class constructors and re-inserted bipartite graphs on every TLC-enumerated small hypergraph under "
+            "four label families."),
+    "C11": ("§4 C11", "the same Convert.tla projections decided by TLC for real write / read round trips in a temporary "
+            "directory (HIF incl. simplicial complexes and collections, JSON with casts, edge list, bipartite edge "
+            "list, incidence matrix incl. 1 x m and n x 1, four delimiters)."),
 }
 NOTE = ("Trusted: TLC, the harness projection/adapter (self-tested on every run by corrupting recorded fields), "
         "and the bounded universes listed in the evidence; outside them only random histories.")
